@@ -7,7 +7,8 @@ Import ListNotations.
 Open Scope Z_scope.
 
 (* every op except seek(NaN): a NaN position is finding F4, treated at the end *)
-Definition finite_op (o : op) : Prop := match o with OpSeek NaN => False | _ => True end.
+Definition finite_op (o : op) : Prop :=
+  match o with OpSeek NaN => False | OpLLSeek NaN => False | _ => True end.
 
 (* what the property compares: everything of the modelled state that navigation can change
    and that has a canonical value (the tracked counts and the site list do NOT: F14, F15) *)
@@ -79,7 +80,7 @@ Lemma py_step_ok st o : inv (fst st) -> inv (snd st) -> finite_op o ->
 Proof.
   destruct st as [cur other]. simpl fst; simpl snd. intros [Hc Nc] [Ho No] Hf.
   unfold py_step, py_step_fuel. pose proof (seek_fuel_gt ts) as HF. fold T in HF.
-  destruct o as [| | | | |x|i| |].
+  destruct o as [| | | | |x|i| | |x|i].
   - destruct (tree_clear_ok ts V cur Hc) as [C _].
     destruct (tree_next_ok ts V _ C) as (t' & r & S & H' & _ & N'). unfold tree_first. rewrite S. cbn [bind].
     eexists; eexists; split; [reflexivity|]. simpl. pose proof (ne_ok_clear ts V cur). unfold inv. auto.
@@ -104,6 +105,19 @@ Proof.
       rewrite S. cbn [lib_call]. eexists; eexists; split; [reflexivity|]. simpl. unfold inv. auto.
   - eexists; eexists; split; [reflexivity|]. simpl. unfold inv. auto.
   - eexists; eexists; split; [reflexivity|]. simpl. unfold inv. auto.
+  - (* the C guard of tsk_tree_seek alone *)
+    destruct x as [v|]; [|destruct Hf].
+    destruct ((v <? 0) || (ts_L ts <=? v)) eqn:G.
+    + unfold tree_seek, x_lt_z, x_ge_z. rewrite G. cbn [lib_call].
+      eexists; eexists; split; [reflexivity|]. simpl. unfold inv. auto.
+    + destruct (tree_seek_ok ts V (seek_fuel ts) cur v Hc ltac:(lia) HF) as (t' & S & H' & _ & N').
+      rewrite S. cbn [lib_call]. eexists; eexists; split; [reflexivity|]. simpl. unfold inv. auto.
+  - (* the C guard of tsk_tree_seek_index alone *)
+    destruct ((i <? 0) || (T <=? i)) eqn:G.
+    + unfold tree_seek_index. fold T. rewrite G. cbn [lib_call].
+      eexists; eexists; split; [reflexivity|]. simpl. unfold inv. auto.
+    + destruct (tree_seek_index_ok ts V (seek_fuel ts) cur i Hc ltac:(lia) HF) as (t' & S & H' & _ & N').
+      rewrite S. cbn [lib_call]. eexists; eexists; split; [reflexivity|]. simpl. unfold inv. auto.
 Qed.
 
 Lemma run_from_ok ops : Forall finite_op ops -> forall st, inv (fst st) -> inv (snd st) ->
@@ -308,7 +322,7 @@ Proof. vm_compute. reflexivity. Qed.
 
 Definition ex_ops : list op :=
   [OpLast; OpPrev; OpSeek (Fin 1); OpNext; OpCopy; OpSeekIndex (-1); OpSwap; OpPrev; OpPrev; OpPrev;
-   OpSeek (Fin 7); OpClear; OpSeek (Fin 5)].
+   OpSeek (Fin 7); OpClear; OpLLSeek (Fin 5); OpLLSeekIndex 9; OpLLSeek (Fin 8)].
 
 Example ex_ops_finite : Forall finite_op ex_ops.
 Proof. repeat constructor. Qed.
@@ -318,7 +332,7 @@ Proof. repeat constructor. Qed.
 Example ex_run :
   match run core ex_ts ex_ops with
   | Ok (st, outs) => abs (fst st) = (2, 4, 6, [4; 4; 3; 4; -1; -1], [4; 5; 2; 3; -1; -1], 4) /\
-                     t_index (snd st) = 3 /\ outs = [2; 1; 2; 1; 2; 2; 2; 1; 0; 1; 2; 2; 2]
+                     t_index (snd st) = 3 /\ outs = [2; 1; 2; 1; 2; 2; 2; 1; 0; 1; 2; 2; 2; -3; -3]
   | _ => False
   end.
 Proof. vm_compute. repeat split. Qed.
